@@ -208,9 +208,23 @@ func propSuppression(c *Case) {
 				c.Assert(hasFresh, "result-expired-early", "the value built at +%v with TTL %v is not fresh any more at +%v", builtAt.Sub(time.Unix(946684800, 0)), builtTTL, now.Sub(time.Unix(946684800, 0)))
 			}
 
+			// a data source may take its time (also to fail): what counts is when the build ended
+			dur := []time.Duration{0, time.Second, f / 2, 2 * f}[c.Weighted("build-duration", 5, 1, 1, 1)]
+			if dur > 0 {
+				c.Class("slow-builder")
+			}
+
+			buildEnd := now
+
 			buf := append([]byte{}, key...)
 			v, err := w.fe.Get(ctx, buf, func(context.Context) (string, error) {
 				invocations++
+
+				if dur > 0 {
+					time.Sleep(dur)
+				}
+
+				buildEnd = time.Now()
 
 				if fails {
 					return "", bErr
@@ -224,6 +238,11 @@ func propSuppression(c *Case) {
 			}
 
 			synctest.Wait() // let a background build finish
+
+			if dur > 0 {
+				time.Sleep(dur) // a slow background build is still under way
+				synctest.Wait()
+			}
 
 			inv := invocations - before
 			c.Tracef("t=+%v Get = (%v, %v); fresh before=%v inWindow=%v builderFails=%v invocations=%d", now.Sub(time.Unix(946684800, 0)), v, err, hasFresh, inWindow, fails, inv)
@@ -251,7 +270,7 @@ func propSuppression(c *Case) {
 			cancel()
 
 			if inv > 0 && fails {
-				lastFailErr, lastFailAt = bErr, now
+				lastFailErr, lastFailAt = bErr, buildEnd
 			}
 
 			if inv > 0 && !fails {
@@ -260,8 +279,8 @@ func propSuppression(c *Case) {
 					builtTTL = cfg.backendTTL
 				}
 
-				builtAt = now
-				freshUntil = now.Add(builtTTL).UnixNano()
+				builtAt = buildEnd
+				freshUntil = buildEnd.Add(builtTTL).UnixNano()
 			}
 		}
 
